@@ -32,6 +32,7 @@ type Result struct {
 	Vacuity   bool     `json:"vacuity,omitempty"`
 	Bounded   bool     `json:"bounded,omitempty"`
 	Location  string   `json:"contract"`
+	Witness   []witness `json:"-"` // skolem constants of a top-level universal clause (replay)
 	Thorough  bool     `json:"-"` // item of the thorough tier
 	BudgetMs  int64    `json:"-"` // solver budget of this obligation (item option timeout=<seconds>); 0 = default
 }
@@ -144,7 +145,11 @@ func RunHarness(p *Program, h *Harness, cfg runCfg) (res *Result) {
 				}
 				continue
 			}
-			negGoals = append(negGoals, c.And(pc, c.Not(o.val)))
+			ng, wit := negSkolem(c, x, o.val)
+			if len(wit) > 0 && res.Witness == nil {
+				res.Witness = wit
+			}
+			negGoals = append(negGoals, c.And(pc, ng))
 			labels = append(labels, "postcondition false")
 		case OPanic:
 			if h.Secondary && !o.st.specPhase {
@@ -443,6 +448,30 @@ func main() {
 		}(i, h)
 	}
 	wg.Wait()
+	// Second chance for claimed obligations that no solver decided (machine under load, unlucky solver run):
+	// one at a time, nothing else running, six times the budget.  An obligation is reported undecided by the
+	// solvers only after this.
+	if !*writeLock && *prop != "" && !strings.Contains(*prop, ",") {
+		lock := readLock(filepath.Join(*verif, "obligations.lock.json"))
+		claimed := map[string]bool{}
+		for _, n := range lock[*prop] {
+			claimed[n] = true
+		}
+		for _, n := range lock[*prop+"#bounded"] {
+			claimed[n] = true
+		}
+		for i, h := range hs {
+			if results[i] != nil && results[i].Status == "unknown" && claimed[h.Oblig] {
+				cfg2 := cfg
+				cfg2.timeout = 6 * cfg.timeout
+				r2 := RunHarness(p, h, cfg2)
+				if r2.Status != "unknown" {
+					r2.Solver += " (second attempt, alone)"
+					results[i] = r2
+				}
+			}
+		}
+	}
 	// stale items without harness
 	for _, it := range p.Items {
 		if it.Stale != "" {
@@ -457,4 +486,45 @@ func main() {
 		os.RemoveAll(*scratch)
 	}
 	os.Exit(code)
+}
+
+type witness struct {
+	Const string
+	Type  types.Type
+}
+
+// negSkolem returns the negation of a clause value; a universally quantified clause (possibly under a
+// disjunction, i.e. behind `A ==>`) is negated by replacing its bound variables with fresh constants, so
+// that a refuting model names the offending values (used by the replay).
+func negSkolem(c *Ctx, x *Exec, v *Term) (*Term, []witness) {
+	switch v.Op {
+	case "forall":
+		ts := x.quantTypes[v]
+		if ts == nil || len(ts) != len(v.Bound) {
+			return c.Not(v), nil
+		}
+		m := map[*Term]*Term{}
+		var wit []witness
+		for i, b := range v.Bound {
+			if strings.HasPrefix(b.Name, "ix!") {
+				return c.Not(v), nil // re-indexed variable: its value is not the Go-level one
+			}
+			w := c.Const(fmt.Sprintf("w_%d_%s", i, sanitize(b.Name)), b.Sort)
+			m[b] = w
+			wit = append(wit, witness{w.Name, ts[i]})
+		}
+		return c.Not(c.Subst(v.Args[0], m)), wit
+	case "or":
+		var parts []*Term
+		var wit []witness
+		for _, a := range v.Args {
+			n, w := negSkolem(c, x, a)
+			parts = append(parts, n)
+			if len(w) > 0 && wit == nil {
+				wit = w
+			}
+		}
+		return c.And(parts...), wit
+	}
+	return c.Not(v), nil
 }
